@@ -15,7 +15,8 @@ RULE = ("E1: ('core', len, zrun, decl, sink, cmac) = full product of every paylo
         "layout / payload length / zero run / declared length, session key, sink, MAC checking). ('hist', ops) = every operation sequence of length <= 4 (5 thorough) on ONE live Bf3File over {write with 2 keys, replace payload, append / remove component, change comments, add tag, shorten declared length} with >= 2 writes. Each case writes a real "
         "Bf3File, reads the text back through the same kind of sink and compares comments, tag descriptions, blobs, "
         "declared lengths, flags, and write(read(write(x))) == write(x). Distinct = distinct case vectors; non-trivial = "
-        "the writer accepted the file and the reader was run on its output.")
+        "the writer accepted the file and the reader was run on its output."
+        " Added families: ('repeat', pattern, ...) the SAME component object (or equal copies) at several positions of the component list; the tag alphabet carries the encryption tag id with values that are not the one-byte 02; default-constructed objects are checked to be empty after every history.")
 ASSUMPTIONS = [
     "components are plain (encrypted components are C06); an ENC tag with value 02 on a plain component is excluded as inconsistent",
     "a writer that refuses a file within the 255-byte entry limit is reported (the property quantifies over all such files)",
